@@ -96,4 +96,5 @@ def gen(rng, tier):
     for i in range(budget(tier, 3, 40)):
         ops.append("reset " + rng.choice(["mqtt", "emitter"]))
         ops.append("conc %d" % rng.getrandbits(20))
+        ops.append("concshare %d" % budget(tier, 4000, 100000))
     return ops
